@@ -249,8 +249,7 @@ func runCheck(cfg *Config) int {
 	}
 	if len(modOf) == 0 {
 		fmt.Fprintf(os.Stderr, "no contracts for property %s\n", cfg.Property)
-		rep.InternalErrs = append(rep.InternalErrs, "no contracts found for property")
-		return rep.finish(start)
+		return 2
 	}
 	var modPaths []string
 	for p := range modOf {
